@@ -12,6 +12,7 @@ import IncanModel.Driver.C16
 import IncanModel.Driver.C17
 import IncanModel.Driver.C18
 import IncanModel.Driver.C19
+import IncanModel.Driver.C20
 
 open Incan.Driver
 
@@ -31,6 +32,7 @@ def dispatch (line : String) : String :=
   | "c17" :: rest => handleC17 rest
   | "c18" :: rest => handleC18 rest
   | "c19" :: rest => handleC19 rest
+  | "c20" :: rest => handleC20 rest
   | "c11" :: rest => handleC19 rest
   | _ => "bad-op"
 
